@@ -77,11 +77,12 @@ Definition opt_list {A} (o : option A) : list A := match o with Some x => [x] | 
 Section Dispatch.
   (* environment: what the node at position [pos] of pipeline [pipe] returns when given event [e] *)
   Variable beh : N -> N -> N -> outcome.
-  (* identity of the Event built by Send *)
-  Variable e0 : N.
+  (* identity of the Event the first node of pipeline [p] is given (the code hands the same Event to every pipeline;
+     the properties do not depend on that, so the model does not either) *)
+  Variable e0 : N -> N.
 
   Definition new_root (p : N) (ns : list node) : task :=
-    {| tpipe := p; tpos := 0%N; tnodes := ns; tev := e0; tstage := SNew; troot := true; tall := ns; tcalls := [] |}.
+    {| tpipe := p; tpos := 0%N; tnodes := ns; tev := e0 p; tstage := SNew; troot := true; tall := ns; tcalls := [] |}.
 
   Definition called (t : task) (n : node) : task :=
     {| tpipe := tpipe t; tpos := tpos t; tnodes := tnodes t; tev := tev t; tstage := SRun; troot := troot t;
@@ -295,8 +296,8 @@ Section Dispatch.
             end
         end
     end.
-  Definition calls_of (r : root) : list call := fst (traverse (fst r) 0%N (snd r) e0).
-  Definition final_of (r : root) : list msg := opt_list (snd (traverse (fst r) 0%N (snd r) e0)).
+  Definition calls_of (r : root) : list call := fst (traverse (fst r) 0%N (snd r) (e0 (fst r))).
+  Definition final_of (r : root) : list msg := opt_list (snd (traverse (fst r) 0%N (snd r) (e0 (fst r)))).
 End Dispatch.
 
 (* ---------- Status and getError ---------- *)
